@@ -104,6 +104,11 @@ func assignIDs(er *estargz.Reader, e *estargz.TOCEntry) (rootID uint32, idMap ma
 
 		var ok bool
 		id, ok := idOfEntry[e.Name]
+		if ok {
+			// Already mapped together with its children (reached again through a hardlink; a hardlink
+			// to an ancestor directory would otherwise be followed forever).
+			return id, nil
+		}
 		if !ok {
 			id, err = nextID()
 			if err != nil {
